@@ -55,6 +55,7 @@ Step(q) ==
       spec_post |-> {s.f : s \in {t \in allowed : S!OutcomeAllowed(q.out, t.out)}},
       spec_ret |-> IF S!IsRetrieval(o) THEN S!SpecRetrieve(f, o) ELSE <<>>,
       impl_out |-> impl.out,
+      impl_ret |-> IF S!IsRetrieval(o) THEN S!ImplRetrieve(f, o) ELSE <<>>,
       impl_class |-> S!DivergenceClass(f, q.reg, o),
       impl_agrees |-> implAgrees,
       integrity_pre |-> S!RefInt(f),
